@@ -29,7 +29,7 @@ func (c16) Plan(tier string) wk.Plan {
 		n = 4_000_000
 	}
 	return wk.Plan{
-		Level: "exploration", Cases: n, Chunk: 500, Configs: single("seq", 16), CaseBudget: 20,
+		Level: "exploration", Cases: n, Chunk: 500, Configs: single("seq", 16), CaseBudget: 8,
 		Rule:        "case = one generated program (as C01) whose free identifiers are the attributes of one argument map; printed twice from the same tree: implicit (x) and explicit (m.x, bound occurrences untouched, so locals shadow attributes); GenerateWithMap(implicit,\"m\") and Generate(explicit,\"m\") are evaluated on the same argument map in every representation (literal, hash map, put chain, merge, replace wrapper). Refuting events: generate-ok differs, outcomes differ, either differs from the reference model, let-bind slot mismatch. A fixed corpus (attribute inside closure / nested closures / func body / let inside argument / shadowing) runs first. Non-trivial = an attribute is used inside a closure or func body (measured on the tree); distinct by source.",
 		Floor:       200,
 		Assumptions: []string{"reference interpreter as in C01; one CPU"},
